@@ -17,16 +17,17 @@ Definition init_ok (tk0 : task) : Prop :=
 
 Definition unspawned (tk : task) : Prop := t_cur tk = None /\ t_fin tk = false.
 
-Definition blocked_sleep (tk : task) : option sleep :=
-  match t_cur tk with Some (AwSleep s) => Some s | _ => None end.
+(* the Sleeps a task holds (all registered while it is blocked) *)
+Definition held (tk : task) : list sleep := held_sleeps (t_cur tk) (t_iv tk).
 
 (* the three states of a task, against the task as it was scripted *)
 Inductive tstate (tk0 tk : task) : Prop :=
 | TUn : tk = tk0 -> tstate tk0 tk
-| TBl s st rest :
+| TBl a st rest :
     t_mod tk = t_mod tk0 -> t_start tk = t_start tk0 -> t_steps tk = st :: rest -> Forall frag_step rest ->
-    t_cur tk = Some (AwSleep s) -> t_iv tk = None -> t_fin tk = false -> handle s = Some (deadline s) ->
-    expected tk0 = t_log tk ++ deadline s :: exp_run (deadline s) rest -> tstate tk0 tk
+    t_cur tk = Some a -> t_iv tk = None -> t_fin tk = false -> aw_kind a ->
+    Forall (fun s => handle s = Some (deadline s)) (aw_held a) -> NoDup (map sid (aw_held a)) ->
+    expected tk0 = t_log tk ++ aw_rec a ++ exp_run (aw_wake a) rest -> tstate tk0 tk
 | TDn :
     t_mod tk = t_mod tk0 -> t_start tk = t_start tk0 -> t_steps tk = [] -> t_cur tk = None -> t_iv tk = None ->
     t_fin tk = true -> t_log tk = expected tk0 -> tstate tk0 tk.
@@ -34,23 +35,24 @@ Inductive tstate (tk0 tk : task) : Prop :=
 (* payload of the message that makes its module spawn task k *)
 Definition msg_of (k : nat) : N := 2 + N.of_nat k.
 
-(* the entries of driver m are exactly the Sleeps of the blocked tasks of module m that are
-   not about to be polled ([q]), each woken through its own task *)
-Record Tie (ts : list task) (own : wakers) (nid : N) (q : list nat) (m : N) (dr : driver) : Prop := {
-  tie_entry : forall k tk s, nth_error ts k = Some tk -> blocked_sleep tk = Some s -> t_mod tk = m -> ~ In k q ->
+(* the entries of driver m are exactly the Sleeps held by the tasks of module m, each woken
+   through its own task; inside an event at instant t the tasks in [q] are about to be polled:
+   their Sleeps that were due have been popped *)
+Record Tie (ts : list task) (t : N) (q : list nat) (m : N) (dr : driver) : Prop := {
+  tie_entry : forall k tk s, nth_error ts k = Some tk -> In s (held tk) -> t_mod tk = m -> (~ In k q \/ t < deadline s) ->
               In (sid s) (ents_at (deadline s) (pending dr));
   tie_task : forall d id, In id (ents_at d (pending dr)) ->
-             exists k tk s, nth_error ts k = Some tk /\ blocked_sleep tk = Some s /\ t_mod tk = m /\ ~ In k q /\
-                            sid s = id /\ deadline s = d }.
+             exists k tk s, nth_error ts k = Some tk /\ In s (held tk) /\ t_mod tk = m /\ sid s = id /\ deadline s = d;
+  tie_nodup : forall d, NoDup (ents_at d (pending dr)) }.
 
 (* what does not depend on where in an event we are *)
 Record Base (ts0 ts : list task) (own : wakers) (nid : N) : Prop := {
   b_states : Forall2 tstate ts0 ts;
   b_init : Forall init_ok ts0;
-  b_ids : forall k tk s, nth_error ts k = Some tk -> blocked_sleep tk = Some s ->
+  b_ids : forall k tk s, nth_error ts k = Some tk -> In s (held tk) ->
           sid s < nid /\ waker_of own (sid s) = Some k;
   b_distinct : forall k k' tk tk' s s', nth_error ts k = Some tk -> nth_error ts k' = Some tk' ->
-               blocked_sleep tk = Some s -> blocked_sleep tk' = Some s' -> sid s = sid s' -> k = k' }.
+               In s (held tk) -> In s' (held tk') -> sid s = sid s' -> k = k' }.
 
 (* the messages in the event set: one for every unspawned task that is not exempt ([later]) *)
 Record Msgs (ts : list task) (l : list ev) (later : nat -> Prop) : Prop := {
@@ -74,17 +76,17 @@ Record WInv (ts0 : list task) (later : nat -> Prop) (w : world) : Prop := {
   wi_base : Base ts0 (w_tasks w) (w_owner w) (w_nid w);
   wi_drv : forall m, m < 2 -> exists l, l <= w_now w /\ Inv l (drv_of w m) /\
            Permutation (wakes m (spend (w_fes w))) (scheduled (drv_of w m)) /\
-           Tie (w_tasks w) (w_owner w) (w_nid w) [] m (drv_of w m) /\ Extra l (drv_of w m);
+           Tie (w_tasks w) l [] m (drv_of w m) /\ Extra l (drv_of w m);
   wi_msgs : Msgs (w_tasks w) (spend (w_fes w)) later }.
 
 (* ---- small facts ---- *)
 Lemma tstate_cases tk0 tk : tstate tk0 tk -> init_ok tk0 ->
   t_iv tk = None /\ t_mod tk = t_mod tk0 /\ t_start tk = t_start tk0 /\
-  (t_cur tk = None \/ exists s, t_cur tk = Some (AwSleep s)).
+  (t_cur tk = None \/ exists a, t_cur tk = Some a /\ aw_kind a).
 Proof.
-  intros [->|s st rest H1 H2 H3 H4 H5 H6 H7 H8 H9|H1 H2 H3 H4 H5 H6 H7] (I1 & I2 & I3 & I4 & I5 & I6 & I7).
+  intros [->|a st rest H1 H2 H3 H4 H5 H6 H7 H8 H9 H10 H11|H1 H2 H3 H4 H5 H6 H7] (I1 & I2 & I3 & I4 & I5 & I6 & I7).
   - repeat split; try assumption; try reflexivity. left; exact I2.
-  - repeat split; try assumption. right; exists s; exact H5.
+  - repeat split; try assumption. right; exists a; split; assumption.
   - repeat split; try assumption. left; exact H4.
 Qed.
 
@@ -121,29 +123,62 @@ Lemma length_set_nth {A} (l : list A) k x : length (set_nth k x l) = length l.
 Proof. revert k; induction l as [|a l IH]; intros k; [destruct k; reflexivity|]. destruct k; cbn [set_nth length]; [reflexivity|rewrite IH; reflexivity]. Qed.
 
 (* no task of the fragment ever waits on a channel *)
+Lemma aw_kind_no_wait a : aw_kind a -> waits_on (Some a) = None.
+Proof. destruct a as [s|v dl| | | | | | |]; try contradiction; [reflexivity|]. destruct v; try contradiction. reflexivity. Qed.
+
 Lemma no_receivers ts0 ts m mail : Forall2 tstate ts0 ts -> Forall init_ok ts0 -> forall i, ready_receivers m mail i ts = [].
 Proof.
   intros H. induction H as [|x y l l' Hxy H IH]; intros Hi i; [reflexivity|].
   inversion Hi as [|? ? Hx Hl]; subst. cbn [ready_receivers].
-  destruct (tstate_cases _ _ Hxy Hx) as (_ & _ & _ & [Hc|(s & Hc)]); rewrite Hc; cbn [waits_on]; apply IH; exact Hl.
+  destruct (tstate_cases _ _ Hxy Hx) as (_ & _ & _ & [Hc|(a & Hc & Hk)]); rewrite Hc.
+  - cbn [waits_on]. apply IH; exact Hl.
+  - rewrite (aw_kind_no_wait a Hk). apply IH; exact Hl.
 Qed.
 
-(* the Sleep a task is blocked on has a finite deadline *)
-Lemma blocked_fin tk0 tk s : tstate tk0 tk -> init_ok tk0 -> blocked_sleep tk = Some s -> deadline s < TMAX.
+(* facts about the await states of the fragment *)
+Lemma aw_wake_held a : aw_kind a -> (exists s, In s (aw_held a) /\ deadline s = aw_wake a) /\ forall s, In s (aw_held a) -> aw_wake a <= deadline s.
 Proof.
-  intros Hst (_ & I2 & _ & _ & _ & _ & I7) Hbl.
-  assert (Hc : t_cur tk = Some (AwSleep s)).
-  { unfold blocked_sleep in Hbl. destruct (t_cur tk) as [[]|]; try discriminate. injection Hbl as ->. reflexivity. }
-  destruct Hst as [->|s' st rest _ _ _ _ H5 _ _ _ H9|_ _ _ H4 _ _ _].
+  destruct a as [s|v dl| | | | | | |]; try contradiction.
+  - intros _. cbn [aw_held held_sleeps aw_wake]. split; [exists s; split; [left; reflexivity|reflexivity]|intros s' [<-|[]]; lia].
+  - destruct v as [s| | |]; try contradiction. intros _. cbn [aw_held held_sleeps aw_wake]. split.
+    + destruct (N.min_spec (deadline s) (deadline dl)) as [[_ E]|[_ E]]; rewrite E;
+        [exists s; split; [left; reflexivity|reflexivity]|exists dl; split; [right; left; reflexivity|reflexivity]].
+    + intros s' [<-|[<-|[]]]; lia.
+Qed.
+
+Lemma aw_rec_head a : aw_kind a -> exists r, aw_rec a = aw_wake a :: r.
+Proof.
+  destruct a as [s|v dl| | | | | | |]; try contradiction; [intros _; exists []; reflexivity|].
+  destruct v as [s| | |]; try contradiction. intros _. eexists. reflexivity.
+Qed.
+
+(* the instant a blocked task will complete its await is finite *)
+Lemma blocked_fin tk0 tk a : tstate tk0 tk -> init_ok tk0 -> t_cur tk = Some a -> aw_wake a < TMAX.
+Proof.
+  intros Hst (_ & I2 & _ & _ & _ & _ & I7) Hc.
+  destruct Hst as [->|a' st rest _ _ _ _ H5 _ _ Hk _ _ H9|_ _ _ H4 _ _ _].
   - rewrite I2 in Hc. discriminate.
-  - rewrite H5 in Hc. injection Hc as ->. rewrite Forall_forall in I7. apply I7. rewrite H9. apply in_or_app. right. left. reflexivity.
+  - rewrite H5 in Hc. injection Hc as ->. rewrite Forall_forall in I7. apply I7. rewrite H9.
+    destruct (aw_rec_head a Hk) as (r0 & ->). apply in_or_app. right. left. reflexivity.
   - rewrite H4 in Hc. discriminate.
 Qed.
 
-Lemma base_blocked_fin ts0 ts own nid k tk s : Base ts0 ts own nid -> nth_error ts k = Some tk ->
-  blocked_sleep tk = Some s -> deadline s < TMAX.
+Lemma base_blocked_fin ts0 ts own nid k tk a : Base ts0 ts own nid -> nth_error ts k = Some tk ->
+  t_cur tk = Some a -> aw_wake a < TMAX.
 Proof.
-  intros B Hk Hbl. destruct (Forall2_nth _ _ _ _ _ (b_states _ _ _ _ B) Hk) as (tk0 & Hk0 & Hst).
-  apply (blocked_fin tk0 tk s Hst); [|exact Hbl]. pose proof (b_init _ _ _ _ B) as Ha. rewrite Forall_forall in Ha.
+  intros B Hk Hc. destruct (Forall2_nth _ _ _ _ _ (b_states _ _ _ _ B) Hk) as (tk0 & Hk0 & Hst).
+  apply (blocked_fin tk0 tk a Hst); [|exact Hc]. pose proof (b_init _ _ _ _ B) as Ha. rewrite Forall_forall in Ha.
   apply Ha. eapply nth_error_In; exact Hk0.
+Qed.
+
+(* a task that holds a Sleep is blocked on an await state of the fragment that holds it *)
+Lemma held_blocked tk0 tk s : tstate tk0 tk -> init_ok tk0 -> In s (held tk) ->
+  exists a, t_cur tk = Some a /\ aw_kind a /\ In s (aw_held a) /\ handle s = Some (deadline s) /\
+            NoDup (map sid (aw_held a)) /\ held tk = aw_held a.
+Proof.
+  intros Hst (_ & I2 & I3 & _) Hin. unfold held in *.
+  destruct Hst as [->|a st rest _ _ _ _ H5 H6 _ Hk Hh Hnd _|_ _ _ H4 _ _ _].
+  - rewrite I2 in Hin. contradiction.
+  - rewrite H5, H6 in *. exists a. rewrite Forall_forall in Hh. repeat split; try assumption; try reflexivity. exact (Hh s Hin).
+  - rewrite H4 in Hin. contradiction.
 Qed.
